@@ -97,6 +97,49 @@ def _classify_writer_field(e):
     return '?' + s
 
 
+def _regex_matches_whole_line(call, consts):
+    """(True/False/None, description) for ``PATTERN.match(line)`` / ``re.fullmatch(p, line)`` /
+    ``NAME(line)`` with NAME = re.compile(p).match: does a match cover the whole line?"""
+    try:
+        import re._parser as sre_parse
+    except ImportError:
+        import sre_parse
+    if not isinstance(call, ast.Call):
+        return None, ''
+    f = call.func
+    if isinstance(f, ast.Name) and f.id in consts:
+        f = consts[f.id]
+    meth, pat = None, None
+    if isinstance(f, ast.Attribute) and f.attr in ('match', 'fullmatch', 'search'):
+        meth = f.attr
+        base = f.value
+        if dotted(base) == 're':
+            pat = call.args[0] if call.args else None
+        else:
+            if isinstance(base, ast.Name) and base.id in consts:
+                base = consts[base.id]
+            if isinstance(base, ast.Call) and dotted(base.func) == 're.compile' and base.args:
+                pat = base.args[0]
+    if isinstance(pat, ast.Name) and pat.id in consts:
+        pat = consts[pat.id]
+    if meth is None or not (isinstance(pat, ast.Constant) and isinstance(pat.value, (str, bytes))):
+        return None, ''
+    if meth == 'search':
+        return False, 're.search of %r' % (pat.value,)
+    if meth == 'fullmatch':
+        return True, ''
+    try:
+        tree = list(sre_parse.parse(pat.value))
+    except Exception:
+        return None, ''
+    # strip trailing optional whitespace, then require an end anchor
+    while tree and str(tree[-1][0]) in ('MAX_REPEAT', 'MIN_REPEAT') and tree[-1][1][0] == 0:
+        tree.pop()
+    if tree and str(tree[-1][0]) == 'AT' and str(tree[-1][1]) in ('AT_END', 'AT_END_STRING'):
+        return True, ''
+    return False, 'a prefix match (%s of %r, no end anchor)' % (meth, pat.value)
+
+
 def _header_parse(g):
     """the reader node that unpacks the header line into (ran, nfail, nerr, ...)"""
     for n in g.nodes:
@@ -322,6 +365,55 @@ def r1_r2_wire(ctx, rep, R1='C07.R1', R2='C07.R2'):
                   'records "could not communicate" instead of the child\'s outcome'
                   % '; '.join(sorted(set(value_tests))[:2]), key='header:syntax-only', func=READER,
                   where=ctx.where(r, hp.ast))
+    # ... and it is the WHOLE line: the parsed fields are all the whitespace-separated tokens of the line
+    # (an unpack of another number of tokens fails), or the groups of a pattern matched against the whole
+    # line (fullmatch / anchored at both ends).  A prefix match takes "0 0 0 open handles" -- noise a
+    # test wrote to fd 2 -- for the header and the real report is never read.
+    if hp is not None:
+        v = hp.ast.value
+        src = None
+        if isinstance(v, ast.Call) and dotted(v.func) == 'map' and len(v.args) == 2 and dotted(v.args[0]) == 'int':
+            src = v.args[1]
+        elif isinstance(v, (ast.ListComp, ast.GeneratorExp, ast.Tuple, ast.List)) and \
+                isinstance(v, (ast.ListComp, ast.GeneratorExp)) and len(v.generators) == 1:
+            src = v.generators[0].iter
+        whole = None
+        why = ''
+        if src is not None:
+            e = src
+            # look through a local holding the match / the tokens
+            for _ in range(3):
+                if isinstance(e, ast.Name):
+                    defs = [x.value for x in ast.walk(r.node) if isinstance(x, ast.Assign) and
+                            any(is_name(t, e.id) for t in x.targets)]
+                    if len(defs) == 1:
+                        e = defs[0]
+                        continue
+                break
+            if isinstance(e, ast.Call) and isinstance(e.func, ast.Attribute) and e.func.attr == 'split' and (
+                    not e.args or (isinstance(e.args[0], ast.Constant) and e.args[0].value is None)) and \
+                    len(e.args) <= 1 and not e.keywords:
+                whole = True
+            elif isinstance(e, ast.Call) and isinstance(e.func, ast.Attribute) and e.func.attr == 'groups':
+                mm = e.func.value
+                for _ in range(3):
+                    if isinstance(mm, ast.Name):
+                        defs = [x.value for x in ast.walk(r.node) if isinstance(x, ast.Assign) and
+                                any(is_name(t, mm.id) for t in x.targets)]
+                        if len(defs) == 1:
+                            mm = defs[0]
+                            continue
+                    break
+                whole, why = _regex_matches_whole_line(mm, r.module.constants)
+        if whole is None:
+            rep.undecide(R1, 'header parse %s' % norm(hp.ast)[:60], 'cannot tell whether the header must be the '
+                         'whole line (neither map(int, <line>.split()) nor the groups of a constant pattern)')
+        else:
+            rep.check(whole, R1, 'the header is a whole line of integers (nothing may follow the third number)',
+                      'the header is recognised by %s: a line that merely BEGINS with three numbers (noise on the '
+                      "child's fd 2 such as '0 0 0 open handles') is taken for the report, the real one is never "
+                      'read and its failures are lost' % why, key='header:whole-line', func=READER,
+                      where=ctx.where(r, hp.ast))
     # num_ran is what resume_tests sums
     rt = m.func('runner.resume_tests')
     summed = any(isinstance(n, ast.Return) and n.value is not None and 'num_ran' in norm(n.value)
@@ -738,6 +830,17 @@ def r5_channel_separation(ctx, rep, R='C07.R5'):
     rep.check(ok and swap_to_stdout, R, 'child: self.%s = sys.stderr before sys.stderr = sys.stdout'
               % saved_attr, 'the real stderr is not saved before sys.stderr is re-pointed to stdout',
               key='child:save-before-swap', func=ws.qualname, where=ctx.where(ws, ws.node))
+    # ... in EVERY child, not only under -j N: a layer resumed in a subprocess at -j 1 has the same report
+    # channel.  Every path through the child's set-up hook re-points sys.stderr (otherwise what tests
+    # write to sys.stderr lands on fd 2, between -- or instead of -- the report lines).
+    if swaps:
+        okall, _w = g.every_path_passes([g.entry], [g.exit], set(swaps), include_start=True,
+                                        edge_ok=lambda s_, d_, k_: k_ != 'exc')
+        rep.check(okall, R, 'child: sys.stderr is re-pointed on every path through %s' % ws.qualname,
+                  'sys.stderr is re-pointed to stdout only on some paths of %s (%s): in the other children '
+                  "the tests' own stderr output shares fd 2 with the report" % (
+                      ws.qualname, norm(g.node(swaps[0]).ast)[:40]), key='child:swap-unconditional',
+                  func=ws.qualname, where=ctx.where(ws, g.node(swaps[0]).ast))
     w = m.func(WRITER)
     gw = ctx.cfg(w)
     from .common import alias_dotted
@@ -845,6 +948,22 @@ def r6_bookkeeping(ctx, rep, R='C07.R6'):
               'ever)', key='done', func=fi.qualname, where=ctx.where(fi, fi.node),
               path=g.describe_path(g.path([g.entry], wgoal, avoid=set(done), include_start=True) or [])
               if not ok else None)
+    # done means DONE: the parent's loop may display the result, stop waiting and compute the verdict as
+    # soon as it sees the flag.  Nothing of the child's report is recorded after it was set.
+    recs = nodes_calling(g, lambda c: isinstance(c.func, ast.Attribute) and c.func.attr in ('append', 'extend')
+                         and dotted(c.func.value) in ps)
+    recs += [n.id for n in g.nodes if n.kind == 'stmt' and isinstance(n.ast, ast.Assign) and any(
+        isinstance(x, ast.Attribute) and x.attr == 'num_ran' and isinstance(x.ctx, ast.Store)
+        for t in n.ast.targets for x in ast.walk(t))]
+    late = []
+    for d_ in done:
+        r_ = g.reach([d_])
+        late += [x for x in recs if x in r_]
+    rep.check(not late, R, 'result.done is set after everything of the report was recorded',
+              'result.done = True can be followed by %s: the parent, which polls the flag, may stop waiting and '
+              'compute totals and verdict before the failures / errors of this layer are recorded' % (
+                  norm(g.node(late[0]).ast)[:60] if late else ''), key='done-last', func=fi.qualname,
+              where=ctx.where(fi, g.node(late[0]).ast) if late else ctx.where(fi, fi.node))
     popen = nodes_calling(g, lambda c: ctx.model.resolve_dotted(fi.module, dotted(c.func)) ==
                           'subprocess.Popen')
     kills = nodes_calling(g, lambda c: isinstance(c.func, ast.Attribute) and c.func.attr in ('kill', 'terminate'))
